@@ -4,6 +4,7 @@ C07 — argument and override values reach commands byte-for-byte.
 can open a further word (hence a further command) in the surrounding command line.
 -/
 import Just.Model.Quote
+import Just.Lemmas.Channels
 namespace Just.Props.C07
 open Just.Quote
 
@@ -192,5 +193,111 @@ example : shSplit (quote "it's".toList) = some ["it's".toList] := quote_one_word
 
 /-- the quoted text itself: `it's` becomes `'it'\''s'` -/
 example : quote "it's".toList = "'it'\\''s'".toList := by decide
+
+/-! ### the other two channels: `"$1"` … `"$@"` / `$0`, and exported parameters
+
+`Fits qs ws` is what the argument parser guarantees (C05 `group_arity`): no word is left over. -/
+open Just.Channels Just.Args Just.EnvExport
+
+/-- **positional channel, linewise recipes**: under positional-arguments the child's argv is the
+shell and its arguments, the command, then the recipe name (`$0`) and then the words of the
+command line — every one of them, unchanged, one argv element per word, in order (`"$1"` …,
+`"$@"`) — followed only by defaults of omitted parameters.  No word is split, joined or dropped,
+whatever characters it contains. -/
+theorem positional_channel_linewise (qs : List NParam) (ws bound : List String) (sc : Scope)
+    (pos shell : List String) (cmd name : String)
+    (hf : Fits qs ws) (h : evalParams qs ws bound = some (sc, pos)) :
+    ∃ tail, linewiseArgv shell cmd true name pos = shell ++ [cmd, name] ++ ws ++ tail := by
+  obtain ⟨tail, ht⟩ := evalParams_positional qs ws bound sc pos hf h
+  exact ⟨tail, by simp [linewiseArgv, ht]⟩
+
+/-- `$0` is the recipe name and `$k` is the k-th word, as indices into the child's argv -/
+theorem positional_channel_index (qs : List NParam) (ws bound : List String) (sc : Scope)
+    (pos shell : List String) (cmd name : String)
+    (hf : Fits qs ws) (h : evalParams qs ws bound = some (sc, pos)) :
+    (linewiseArgv shell cmd true name pos)[shell.length + 1]? = some name ∧
+    ∀ k (hk : k < ws.length), (linewiseArgv shell cmd true name pos)[shell.length + 2 + k]? = some ws[k] := by
+  obtain ⟨tail, ht⟩ := positional_channel_linewise qs ws bound sc pos shell cmd name hf h
+  rw [ht]
+  constructor
+  · simp
+  · intro k hk
+    have : shell ++ [cmd, name] ++ ws ++ tail = (shell ++ [cmd, name]) ++ (ws ++ tail) := by simp
+    rw [this, List.getElem?_append_right (by simp)]
+    have : shell.length + 2 + k - (shell ++ [cmd, name]).length = k := by simp
+    rw [this, List.getElem?_append_left hk]
+    simp
+
+/-- **positional channel, shebang and `[script]` recipes**: interpreter, script path, then the words -/
+theorem positional_channel_script (qs : List NParam) (ws bound : List String) (sc : Scope)
+    (pos interp : List String) (path : String)
+    (hf : Fits qs ws) (h : evalParams qs ws bound = some (sc, pos)) :
+    ∃ tail, scriptArgv interp path true pos = interp ++ [path] ++ ws ++ tail := by
+  obtain ⟨tail, ht⟩ := evalParams_positional qs ws bound sc pos hf h
+  exact ⟨tail, by simp [scriptArgv, ht]⟩
+
+/-- without positional-arguments no value reaches argv at all -/
+theorem positional_off (pos shell : List String) (cmd name path : String) :
+    linewiseArgv shell cmd false name pos = shell ++ [cmd] ∧
+    scriptArgv shell path false pos = shell ++ [path] := by
+  simp [linewiseArgv, scriptArgv]
+
+/-- **export channel, singular parameter**: a word given for an exported parameter (`$p`, or any
+parameter under `set export`) is the value of the environment variable `p` in the child —
+whatever just's own environment, a loaded `.env` file, the variables of the enclosing modules
+and the `unexport` list contain. -/
+theorem export_channel_singular (base : Env) (dotenv : List (String × String)) (se : Bool)
+    (un : List String) (outer : List Scope)
+    (qs : List NParam) (ws bound : List String) (sc : Scope) (pos : List String)
+    (h : evalParams qs ws bound = some (sc, pos)) (hnd : (qs.map (·.name)).Nodup)
+    (i : Nat) (hq : i < qs.length) (hw : i < ws.length)
+    (hsing : ∀ j (hj : j < qs.length), j ≤ i → (qs[j]).p.isVariadic = false)
+    (hexp : (qs[i]).exported = true ∨ se = true) :
+    recipeEnv base dotenv se un outer sc (qs[i]).name = some ws[i] := by
+  obtain ⟨hs, he⟩ := evalParams_singular qs ws bound sc pos i hq hw h hsing
+  have hn := evalParams_names qs ws bound sc pos h
+  have hmem : sc[i] ∈ sc := List.getElem_mem hs
+  have hx : isExported se sc[i] = true := by
+    rw [he]
+    rcases hexp with hexp | hexp <;> simp [isExported, mkBinding, hexp]
+  have := exportedIn_of_mem se sc (by rw [hn.1]; exact hnd) _ hmem hx
+  rw [he] at this
+  exact recipeEnv_param base dotenv se un outer sc _ _ this
+
+/-- **export channel, variadic parameter**: the remaining words joined by single spaces -/
+theorem export_channel_variadic (base : Env) (dotenv : List (String × String)) (se : Bool)
+    (un : List String) (outer : List Scope)
+    (qs : List NParam) (ws bound : List String) (sc : Scope) (pos : List String)
+    (h : evalParams qs ws bound = some (sc, pos)) (hnd : (qs.map (·.name)).Nodup)
+    (i : Nat) (hq : i < qs.length) (hw : i < ws.length)
+    (hsing : ∀ j (hj : j < qs.length), j < i → (qs[j]).p.isVariadic = false)
+    (hvar : (qs[i]).p.isVariadic = true)
+    (hexp : (qs[i]).exported = true ∨ se = true) :
+    recipeEnv base dotenv se un outer sc (qs[i]).name = some (joinWith " " (ws.drop i)) := by
+  obtain ⟨hs, he⟩ := evalParams_variadic qs ws bound sc pos i hq hw h hsing hvar
+  have hn := evalParams_names qs ws bound sc pos h
+  have hmem : sc[i] ∈ sc := List.getElem_mem hs
+  have hx : isExported se sc[i] = true := by
+    rw [he]
+    rcases hexp with hexp | hexp <;> simp [isExported, mkBinding, hexp]
+  have := exportedIn_of_mem se sc (by rw [hn.1]; exact hnd) _ hmem hx
+  rw [he] at this
+  exact recipeEnv_param base dotenv se un outer sc _ _ this
+
+/-- the values the three channels deliver are the ones C05 binds -/
+theorem channels_bind_what_C05_binds (qs : List NParam) (ws bound : List String) (sc : Scope)
+    (pos : List String) (h : evalParams qs ws bound = some (sc, pos)) :
+    bindArgs (qs.map (·.p)) ws bound = .ok (bound ++ sc.map (·.value)) :=
+  evalParams_values qs ws bound sc pos h
+
+/-- non-vacuity: `r $x *rest` called with three words, one of them a shell payload; a `.env` file
+and an outer `export x` try to shadow the parameter -/
+example :
+    let qs : List NParam := [⟨"x", true, ⟨.singular, none⟩⟩, ⟨"rest", false, ⟨.star, none⟩⟩]
+    let ws := ["'; touch canary; '", "a b", "$(c)"]
+    (evalParams qs ws []).map (·.2) = some ws ∧
+    (evalParams qs ws []).map (fun r => recipeEnv (fun _ => none) [("x", "dotenv")] false ["x"]
+      [[⟨"x", "outer", true, false⟩]] r.1 "x") = some (some "'; touch canary; '") := by
+  decide
 
 end Just.Props.C07
